@@ -3,6 +3,7 @@ import itertools
 import os
 import posixpath
 import fnmatch
+import re
 import common as C
 
 PROPERTIES = ["C19"]
@@ -14,7 +15,7 @@ MANIFEST = {
         "design_ref": "DESIGN.md 3/C19",
     }
 }
-PROPS = ["Nstd.Path.Props", "Nstd.Path.FsProps"]
+PROPS = ["Nstd.Path.Props", "Nstd.Path.FsProps", "Nstd.Path.Props2"]
 LEAN_TARGETS = PROPS + ["drv_path"]
 DRIVER = "drv_path"
 SOURCES = ["path.cpp", C.REPO / "src/File.cpp", C.REPO / "src/Directory.cpp", C.REPO / "src/String.cpp",
@@ -140,6 +141,64 @@ def ref_rel(f, t):
     return r
 
 
+def ref_wild(pat, name):
+    """independent oracle of the wildcard semantics: a regular expression over bytes (ASCII-only case folding)"""
+    rx = b"".join(b".*" if c == "*" else b"." if c == "?" else re.escape(c.encode("latin-1")) for c in pat)
+    return "1" if re.fullmatch(rx, name.encode("latin-1"), re.IGNORECASE | re.DOTALL) else "0"
+
+
+def extract_wild(ctx):
+    """cut PatternMatcher::szWildMatch7 out of the current src/Directory.cpp (it is local to the _WIN32 branch of
+    Directory::read) so that the harness compiles and runs exactly that text; -> include directory or None"""
+    src = (C.REPO / "src/Directory.cpp").read_text(errors="replace")
+    k = src.find("static bool szWildMatch7(")
+    if k < 0:
+        return None
+    i = src.find("{", k)
+    depth, j = 0, i
+    while j < len(src):
+        if src[j] == "{":
+            depth += 1
+        elif src[j] == "}":
+            depth -= 1
+            if depth == 0:
+                break
+        j += 1
+    if depth != 0:
+        return None
+    d = C.BUILD / f"gen_path_{os.getpid()}"
+    d.mkdir(parents=True, exist_ok=True)
+    (d / "path_wild.inc").write_text("// cut out of src/Directory.cpp by tools/areas/path.py\n" + src[k:j + 1] + "\n")
+    return d
+
+
+def wild_histories(ctx):
+    quick = ctx.tier == "quick"
+    rng = ctx.rng
+    def strs(alpha, maxlen):
+        for n in range(maxlen + 1):
+            for t in itertools.product(alpha, repeat=n):
+                yield "".join(t)
+    pats = list(strs("aB*?", 4 if quick else 5))
+    names = list(strs("abA", 4 if quick else 5))
+    hs = [[f"wild {hx(p)} {hx(n)}" for n in names] for p in pats]
+    rnd = []
+    for _ in range(400 if quick else 4000):
+        h = []
+        for _ in range(20):
+            p = "".join(rng.choice("abcABC.**??\xe9[") for _ in range(rng.randrange(0, 9)))
+            if rng.random() < 0.5:      # a name that matches by construction
+                n = "".join("".join(rng.choice("abcABC.") for _ in range(rng.randrange(0, 4))) if c == "*" else rng.choice("abC.") if c == "?"
+                            else c.swapcase() if rng.random() < 0.3 else c for c in p)
+            else:
+                n = "".join(rng.choice("abcABC.\xe9[") for _ in range(rng.randrange(0, 9)))
+            h.append(f"wild {hx(p)} {hx(n)}")
+        rnd.append(h)
+    ctx.cov["wild_scope"] = (f"szWildMatch7 (text cut out of the current Directory.cpp): all {len(pats)} patterns of length <= {4 if quick else 5} over {{a,B,*,?}} x all "
+                             f"{len(names)} names of length <= {4 if quick else 5} over {{a,b,A}} + {len(rnd) * 20} random pairs (half of them matching by construction)")
+    return hs + rnd
+
+
 def reference(hist):
     out = []
     for line in hist:
@@ -153,6 +212,7 @@ def reference(hist):
         elif op == "simp": out.append(hx(ref_simp(a[0])))
         elif op == "abs": out.append(ref_abs(a[0]))
         elif op == "rel": out.append(hx(ref_rel(a[0], a[1])))
+        elif op == "wild": out.append(ref_wild(a[0], a[1]))
         else: out.append("bad-op")
     return out
 
@@ -270,14 +330,17 @@ def check(ctx):
         "theorems about Directory::unlink / File::rename assume a well-formed world and (unlink) a plain path; every model state reached in the run is checked for well-formedness by the driver",
     ]
     proof_ok = C.proof_stage(ctx, PROPS, [DRIVER], leanchecker=(ctx.tier == "thorough"))
-    harness = C.build_harness(ctx, "path", SOURCES)
+    gen = extract_wild(ctx)
+    if gen is None:
+        ctx.broken.append("PatternMatcher::szWildMatch7 not found in src/Directory.cpp: the tie of the wildcard matcher model is broken")
+    harness = C.build_harness(ctx, "path", SOURCES, extra_flags=[f"-I{gen}"] if gen else [])
     drv = C.driver_path(DRIVER)
     if harness is None or not drv.exists():
         return
     try:
         hs = C.load_corpus(ctx.prop)
         ph, nrnd = path_histories(ctx)
-        hs = [h for h in hs if not is_fs_history(h)] + ph
+        hs = [h for h in hs if not is_fs_history(h)] + ph + wild_histories(ctx)
         ops = {}
         for h in hs:
             for l in h:
@@ -302,7 +365,7 @@ def check(ctx):
         ctx.cov["rule"] = (ctx.cov.get("exhaustive_scope", "") + f" + {nrnd} random component-built paths (drive prefixes, double separators, "
                            "multi-dot names, high bytes) with 8 unary ops and both getRelativePath directions each; every output compared with the Lean model "
                            "and with the Python reference (own stack machine + posixpath.basename/splitext/normpath/relpath cross-checks) and the recomposition laws; "
-                           "distinct_nontrivial = distinct (first op, output tuple)")
+                           "distinct_nontrivial = distinct (first op, output tuple) || " + ctx.cov.get("wild_scope", ""))
         fs_check(ctx, harness, drv)
     finally:
         try:
@@ -310,6 +373,9 @@ def check(ctx):
         except OSError:
             pass
         cleanup_scratch()
+        if gen:
+            import shutil
+            shutil.rmtree(gen, ignore_errors=True)
 
 
 def is_fs_history(h):
@@ -865,7 +931,8 @@ def cleanup_scratch():
 
 def replay(ctx, path):
     h = C.parse_replay(path)
-    harness = C.build_harness(ctx, "path", SOURCES)
+    gen = extract_wild(ctx)
+    harness = C.build_harness(ctx, "path", SOURCES, extra_flags=[f"-I{gen}"] if gen else [])
     C.lake_build([DRIVER])
     fs = is_fs_history(h)
     diffs = C.differential(ctx, harness, C.driver_path(DRIVER), [h], fs_reference if fs else ref_with_laws, fs_eq if fs else C.default_eq)
